@@ -44,6 +44,18 @@ Record todo_obj := mkTodo {
 Record fut := mkFut { f_state : Z; f_code : list Z; f_reported : Z }.
 #[export] Instance eta_fut : Settable _ := settable! mkFut <f_state; f_code; f_reported>.
 
+(* glue state of a TLS socket (src/socket_tls_impl.h) *)
+Record tlsst := mkTls {
+  t_last : Z;                    (* lastError: 0 NONE, 1 SSL, 2 WANT_READ, 3 WANT_WRITE, 5 SYSCALL, 6 ZERO_RETURN *)
+  t_isr : bool;                  (* isReadable *)
+  t_isw : bool;                  (* isWritable *)
+  t_supp : bool;                 (* driverSendSuppressed *)
+  t_init : bool;                 (* SSL_is_init_finished (state of the engine) *)
+  t_pend : Z;                    (* size of pendingSend, -1 = empty *)
+  t_rem : Z                      (* remainingTime, ms *)
+}.
+#[export] Instance eta_tls : Settable _ := settable! mkTls <t_last; t_isr; t_isw; t_supp; t_init; t_pend; t_rem>.
+
 Record ext := mkExt {
   x_pools : list (Z * pool);     (* user pools by key *)
   x_socks : list (Z * sock);     (* sockets by key *)
@@ -57,17 +69,19 @@ Record ext := mkExt {
   x_npool : Z;                   (* pools created so far (buffer identities are unique across pools) *)
   x_held : list (Z * Z);         (* buffers (owner, id) whose BufferPtr the scenario (the user) holds *)
   x_arg : option (Z * Z);        (* buffer handed to the handler that is running (owner, id), if not kept yet *)
-  x_acc : option (Z * Z)         (* (descriptor, peer) of the socket handed to the running connect handler *)
+  x_acc : option (Z * Z);        (* (descriptor, peer) of the socket handed to the running connect handler *)
+  x_tls : list (Z * tlsst);      (* TLS sockets by key: glue state *)
+  x_eng : list raw               (* script of the TLS engine (scripted OpenSSL), see TlsModel.v *)
 }.
 #[export] Instance eta_ext : Settable _ :=
-  settable! mkExt <x_pools; x_socks; x_names; x_driver; x_todos; x_futs; x_nfut; x_blocks; x_ntodo; x_npool; x_held; x_arg; x_acc>.
+  settable! mkExt <x_pools; x_socks; x_names; x_driver; x_todos; x_futs; x_nfut; x_blocks; x_ntodo; x_npool; x_held; x_arg; x_acc; x_tls; x_eng>.
 
 Definition dummy_pool : pool := {| p_max := 0; p_idle := []; p_busy := []; p_next := 0 |}.
 Definition no_driver : driver :=
   {| d_alive := false; d_from := -1; d_to := -1; d_todos := []; d_socks := []; d_pfds := []; d_stop := false |}.
 Definition ext_init : ext :=
   {| x_pools := []; x_socks := []; x_names := []; x_driver := no_driver; x_todos := []; x_futs := []; x_nfut := 0;
-     x_blocks := []; x_ntodo := 0; x_npool := 0; x_held := []; x_arg := None; x_acc := None |}.
+     x_blocks := []; x_ntodo := 0; x_npool := 0; x_held := []; x_arg := None; x_acc := None; x_tls := []; x_eng := [] |}.
 
 Section Assoc.
 Context {V : Type}.
